@@ -124,6 +124,26 @@ def run(ctx):
         if len(samples) < 2:
             samples.append({"history": "connect(starttls=True) fault=%s tlsok=%s" % (fault, tlsok), "writes": [(t, b[:30].decode("latin-1")) for t, b in s.wire.writes]})
 
+    # 2a-oauth. OAUTHBEARER refused the RFC 7628 way (an error challenge, then NO once the client has answered it, or has given up):
+    #        whatever the client makes of the challenge, the exchange did not end with OK: not authenticated, no script command
+    for mech in (None, "OAUTHBEARER"):
+        for tls in (False, True):
+            srv = refserver.RefServer(r, starttls=True, sasl=b"OAUTHBEARER", post_tls_sasl=b"OAUTHBEARER", users={b"user": b"the-right-token"})
+            srv.oauth_challenge = True
+            s = msref.Session()
+            out = s.connect(b"", [], "user", "a-wrong-token", starttls=tls, mech=mech, server=srv)
+            evals += 1
+            nontriv += 1
+            probs = []
+            if "res=b1" in out or "auth=b1" in out:
+                probs.append("the token was refused (error challenge, then NO) but connect returned %s, authenticated flag %s" % (out.split(" ")[0], "auth=b1" in out))
+            nw = len(s.wire.writes)
+            out2 = s.op("listscripts")
+            if any(v in refserver.RefServer.SCRIPT_VERBS for _, v, _ in verbs_written(s.wire.writes[nw:])):
+                probs.append("a script command was written after the refused OAUTHBEARER exchange: %r" % [b[:30] for t, b in s.wire.writes[nw:]])
+            for p_ in probs:
+                viol.append({"history": "connect(authmech=%r, starttls=%s), OAUTHBEARER token refused with an error challenge" % (mech, tls), "what": p_})
+
     # 2a''. `starttls` given as something true that is not `True` (1, "yes", a non-empty list — the parameter is documented as a
     #       boolean, and callers pass what their configuration parser gives them): a secured connection was asked for
     for val in (1, "yes", 2, [0], 1.0):
